@@ -134,6 +134,75 @@ func init() {
 		}
 		moneyOff, moneySz := fieldOff("Money")
 		levelOff, levelSz := fieldOff("UserLevel")
+		idOff, idSz := fieldOff("UserID")
+
+		// ---- the loader (cache.userecRawAddToUHash): which SHM arrays the "fill the slot from its record" block
+		// assigns unconditionally and which only under `if ptttype.USE_COOLDOWN`.  The block is the body of the
+		// `if !isOnfly || ...` statement; assignments made elsewhere (helpers) are not followed.
+		var loaderCopies, loaderCopiesCd []string
+		mentions := func(e ast.Expr, name string) bool {
+			found := false
+			ast.Inspect(e, func(n ast.Node) bool {
+				switch x := n.(type) {
+				case *ast.Ident:
+					found = found || x.Name == name
+				case *ast.SelectorExpr:
+					found = found || x.Sel.Name == name
+				}
+				return !found
+			})
+			return found
+		}
+		shmField := func(e ast.Expr) string { // Shm.Shm.<Field>[...]
+			ix, ok := e.(*ast.IndexExpr)
+			if !ok {
+				return ""
+			}
+			sel, ok := ix.X.(*ast.SelectorExpr)
+			if !ok {
+				return ""
+			}
+			if in, ok := sel.X.(*ast.SelectorExpr); !ok || in.Sel.Name != "Shm" {
+				return ""
+			}
+			return sel.Sel.Name
+		}
+		var collect func(stmts []ast.Stmt, underCd bool)
+		collect = func(stmts []ast.Stmt, underCd bool) {
+			for _, st := range stmts {
+				switch x := st.(type) {
+				case *ast.AssignStmt:
+					for _, l := range x.Lhs {
+						if f := shmField(l); f != "" {
+							if underCd {
+								loaderCopiesCd = append(loaderCopiesCd, f)
+							} else {
+								loaderCopies = append(loaderCopies, f)
+							}
+						}
+					}
+				case *ast.IfStmt:
+					if mentions(x.Cond, "USE_COOLDOWN") && x.Else == nil {
+						collect(x.Body.List, true)
+					} else {
+						fatal("userecRawAddToUHash: unexpected nested if in the slot-fill block at %v", pc.Fset.Position(x.Pos()))
+					}
+				}
+			}
+		}
+		loader := moneyFuncDecl(pc, "userecRawAddToUHash")
+		for _, st := range loader.Body.List {
+			if is, ok := st.(*ast.IfStmt); ok && mentions(is.Cond, "isOnfly") && mentions(is.Cond, "Cstrcmp") {
+				collect(is.Body.List, false)
+			}
+		}
+		quote := func(xs []string) string {
+			q := make([]string, len(xs))
+			for i, x := range xs {
+				q[i] = fmt.Sprintf("%q", x)
+			}
+			return "[" + strings.Join(q, ", ") + "]"
+		}
 		// bytes that encoding/binary does not round-trip: a bool is read as (byte != 0) and written as 0/1
 		var boolOffs []string
 		var walk func(t types.Type, base int64)
@@ -248,6 +317,12 @@ func init() {
 		lf.nat("userLevelOffset", levelOff)
 		lf.nat("userLevelSize", levelSz)
 		lf.natList("boolOffsets", boolOffs)
+		lf.nat("userIDOffset", idOff)
+		lf.nat("userIDSize", idSz)
+		lf.raw("\n/- cache.userecRawAddToUHash: SHM arrays assigned in the `if !isOnfly || Cstrcmp(...) != 0` block -/\n")
+		lf.nat("preAllocatedUsers", constInt(pc, "PRE_ALLOCATED_USERS"))
+		lf.raw("def loaderCopies : List String := " + quote(loaderCopies) + "\n")
+		lf.raw("def loaderCopiesUnderCooldown : List String := " + quote(loaderCopiesCd) + "\n")
 		lf.raw("\n/- cache.passwdUpdateMoney -/\n")
 		lf.raw(fmt.Sprintf("def writtenField : String := %q\n", writtenField))
 		lf.nat("writtenOffset", writtenOff)
